@@ -186,8 +186,15 @@ def rl_cases(draw):
                  "sched_seed": 2}
     # losses: the real loss, or a script that can hit special values (an exact 0.0 = perfect fit, ties, increases)
     losses = draw(st.one_of(st.none(), st.lists(st.sampled_from([0.0, 0.0, 1.0, 0.5, 2.0, 0.25]), min_size=2, max_size=8)))
-    return {"cfg": cfg, "agent": agent, "script": script, "sessions": draw(st.lists(st.integers(1, 4), min_size=1, max_size=3)),
+    case = {"cfg": cfg, "agent": agent, "script": script, "sessions": draw(st.lists(st.integers(1, 4), min_size=1, max_size=3)),
             "losses": losses, "slow_pending_decision": draw(st.integers(0, 11)) == 0}
+    # round 9: a session that ends before any batch was scored (calibrate(0)) - the agent has already queued a choice by then
+    z = draw(st.integers(0, 5))
+    if z == 0:
+        case["sessions"] = [0] + case["sessions"]
+    elif z == 1 and len(case["sessions"]) >= 2:
+        case["sessions"].insert(1, 0)
+    return case
 
 
 def check_rl(ctx: Ctx, case):
@@ -232,7 +239,7 @@ def check_rl(ctx: Ctx, case):
     total = sum(case["sessions"])
     ctx.count(sub, case, total >= 3, [case["agent"], "halton-supplied" if has_halton else "halton-added",
                                       f"sessions={len(case['sessions'])}"] +
-              (["zero-loss"] if case.get("losses") and 0.0 in case["losses"] else []))
+              (["empty-session"] if 0 in case["sessions"] else []) + (["zero-loss"] if case.get("losses") and 0.0 in case["losses"] else []))
     with Logger() as lg, guard(ctx, "C09/exception", sub, case):
         sched = RLScheduler(supplied, agent=agent, env=MABCalibrationEnv(n_act), random_state=3)
         from harness.stubs import ScriptedLoss
@@ -276,9 +283,10 @@ def check_rl(ctx: Ctx, case):
                 per_session.append(cur)
             elif cur is not None:
                 cur.append(c)
-        k0 = 0
+        k0, ran = 0, 0
         for si, nb in enumerate(case["sessions"]):
-            n_agent = nb - (1 if si == 0 else 0)          # the very first batch is the bootstrap
+            n_agent = nb - (1 if ran == 0 and nb > 0 else 0)          # the very first batch is the bootstrap
+            ran += nb
             used_s = used[k0:k0 + n_agent]
             k0 += n_agent
             ch = per_session[si] if si < len(per_session) else []
